@@ -6,6 +6,7 @@
 
 #include "libparser.h"
 
+#include <algorithm>
 #include <cerrno>
 #include <cxxabi.h>
 #include <sstream>
@@ -35,6 +36,8 @@ std::string CallSpec::str() const
     os << " bytes=" << bytes.size() << " sched=[" << sched.str() << "]";
     if (alloc_fail_at > 0)
         os << " allocfail@" << alloc_fail_at;
+    if (sink_fail_after >= 0)
+        os << " sinkfail@" << sink_fail_after;
     if (errno_before)
         os << " errno=" << errno_before;
     return os.str();
@@ -74,6 +77,34 @@ struct Out
 {
     std::string props;
 };
+/** the PrettyPrinter's sink: an in-memory stream whose buffer refuses to grow beyond a planned number of bytes */
+struct FailingBuf : std::stringbuf
+{
+    int64_t limit{-1};
+    int64_t taken{0};
+    bool fired{false};
+    int_type overflow(int_type c) override
+    {
+        if (limit >= 0 && taken >= limit) {
+            fired = true;
+            return traits_type::eof();
+        }
+        ++taken;
+        return std::stringbuf::overflow(c);
+    }
+    std::streamsize xsputn(const char* s, std::streamsize n) override
+    {
+        if (limit >= 0 && taken + n > limit) {
+            std::streamsize ok = std::max<int64_t>(0, limit - taken);
+            std::stringbuf::xsputn(s, ok);
+            taken += ok;
+            fired = true;
+            return ok;
+        }
+        taken += n;
+        return std::stringbuf::xsputn(s, n);
+    }
+};
 }  // namespace
 
 static void do_call(Session& s, const CallSpec& c, CallResult& r, std::string& props)
@@ -98,7 +129,11 @@ static void do_call(Session& s, const CallSpec& c, CallResult& r, std::string& p
             s.doc = std::make_unique<Document>();
     }
     Document* doc = s.doc.get();
-    std::ostringstream pretty;
+    FailingBuf pretty_buf;
+    pretty_buf.limit = c.backend == B_PRETTY ? c.sink_fail_after : -1;
+    std::ostream pretty{&pretty_buf};
+    if (pretty_buf.limit >= 0)
+        pretty.exceptions(std::ios::badbit | std::ios::failbit);  // a client that wants to hear about a full disk
     std::unique_ptr<ParserBuilder> builder;
     TigaPropertyBuilder* tiga = nullptr;
     auto make_builder = [&]() -> ParserBuilder* {
@@ -177,7 +212,8 @@ static void do_call(Session& s, const CallSpec& c, CallResult& r, std::string& p
         s.tainted = true;
     if (load)
         s.load_threw = r.threw;
-    r.pretty_out = pretty.str();
+    r.pretty_out = pretty_buf.str();
+    r.sink_fault_fired = pretty_buf.fired;
     if (tiga && !r.threw) {
         try {
             props = props_dump(*doc, *tiga);
